@@ -19,6 +19,15 @@ func trailFree(s *State) bool {
 	return true
 }
 
+func trailNoOpaque(s *State) bool {
+	for _, t := range s.trail {
+		if t.Opq {
+			return false
+		}
+	}
+	return true
+}
+
 func isNilResult(v AV) (bool, bool) {
 	return nilness(v)
 }
@@ -28,6 +37,7 @@ type postExpect struct {
 	desc string
 	ok   func(res []AV) (bool, bool) // (holds, decided)
 	whenHyp func(entry string, h *GeomHyp) bool // alternative selector on the geometry hypothesis
+	allowDerived bool // judge paths that branch on computed floats too (the expectation is about shape, not about values)
 }
 
 func rulePost(name string, exps []postExpect) func(c *Ctx, run *shapeRun, hyps []*GeomHyp, labels []string) {
@@ -55,7 +65,7 @@ func rulePost(name string, exps []postExpect) func(c *Ctx, run *shapeRun, hyps [
 			bad := ""
 			judged := 0
 			for _, st := range run.finished {
-				if !trailFree(st) {
+				if !trailFree(st) && !(ex.allowDerived && trailNoOpaque(st)) {
 					continue
 				}
 				holds, decided := ex.ok(st.result)
@@ -155,6 +165,7 @@ func typedNilPost(entrySuffixes ...string) []postExpect {
 			}
 			return false
 		},
+		allowDerived: true,
 		desc: "the result is a nil interface or holds a non-nil value (never a typed nil inside a non-nil interface)",
 		ok: func(res []AV) (bool, bool) {
 			if len(res) == 0 {
